@@ -793,7 +793,10 @@ func runDescriptors(r *rc) {
 	base := otto.New()
 	const observe = `; (function(){ var d = Object.getOwnPropertyDescriptor(o, P); return [typeof o[P], d && typeof d.value, JSON.stringify(d), Object.keys(o).length, JSON.stringify(o) === undefined].join() })()`
 	for _, rc5 := range descReceivers {
-		for _, name := range descNames {
+		for ni, name := range descNames {
+			if !r.Thorough() && ni%2 == 1 {
+				continue // quick tier: every other property name ("a", "zz", "7")
+			}
 			for _, op := range descOps {
 				for _, pl := range descPayloads {
 					for attrs := 0; attrs < 27; attrs++ {
